@@ -38,7 +38,7 @@ pub fn check_case(ctx: &Ctx, st: &mut Stats, c: &Case, tag: &str) {
     st.evals += 1;
     let dir = ctx.fresh_dir(&format!("c16-{}", tag));
     let _ = std::fs::create_dir_all(&dir);
-    let output = dir.join(super::common::hostile_file_name(c.csv.len(), "out.txt"));
+    let output = super::common::spelled_output(&dir, c.csv.len() / 2, &super::common::hostile_file_name(c.csv.len(), "out.txt"));
     let plan = super::common::plan_input(c.io, &dir, "graph.csv", c.csv.as_bytes());
     let mut args: Vec<String> = Vec::new();
     // short, long and clustered spellings
